@@ -232,6 +232,7 @@ type agentScript struct {
 	seed       int64
 	hostile    bool // an additional client per generation sends hostile byte streams and disconnects abruptly
 	earlyDrops bool // some records are dropped by an input-stage extraction (C19: known finding F-12)
+	chatty     bool // one more client keeps sending (gaps shorter than the flush interval) right through every stop
 }
 
 func (s agentScript) op() Op {
@@ -244,7 +245,7 @@ func (s agentScript) op() Op {
 		up = "-"
 	}
 	return Op{Name: "agent script", Strs: []string{s.mode, s.quota, up, strings.Join(stop, ",")},
-		Ints: []int64{int64(s.maxDurMs), int64(s.gens), int64(s.conns), int64(s.recs), int64(s.apps), s.seed, b2i(s.hostile), b2i(s.earlyDrops)}}
+		Ints: []int64{int64(s.maxDurMs), int64(s.gens), int64(s.conns), int64(s.recs), int64(s.apps), s.seed, b2i(s.hostile), b2i(s.earlyDrops), b2i(s.chatty)}}
 }
 
 func b2i(b bool) int64 {
@@ -256,7 +257,7 @@ func b2i(b bool) int64 {
 
 func agentScriptOf(o Op) agentScript {
 	s := agentScript{mode: o.Strs[0], quota: o.Strs[1], maxDurMs: int(o.Ints[0]), gens: int(o.Ints[1]), conns: int(o.Ints[2]),
-		recs: int(o.Ints[3]), apps: int(o.Ints[4]), seed: o.Ints[5], hostile: len(o.Ints) > 6 && o.Ints[6] != 0, earlyDrops: len(o.Ints) > 7 && o.Ints[7] != 0}
+		recs: int(o.Ints[3]), apps: int(o.Ints[4]), seed: o.Ints[5], hostile: len(o.Ints) > 6 && o.Ints[6] != 0, earlyDrops: len(o.Ints) > 7 && o.Ints[7] != 0, chatty: len(o.Ints) > 8 && o.Ints[8] != 0}
 	if o.Strs[2] != "-" {
 		s.upScript = strings.Split(o.Strs[2], ",")
 	}
@@ -381,6 +382,25 @@ func runAgent(sc agentScript) (obs agentObs) {
 					w.Flush()
 				}(c)
 			}
+			chattyDone := make(chan struct{})
+			if sc.chatty {
+				go func() {
+					defer close(chattyDone)
+					conn, err := net.Dial("tcp", addrs[0])
+					if err != nil {
+						return
+					}
+					defer conn.Close()
+					for i := 0; ; i++ {
+						if _, err := fmt.Fprintf(conn, "<14>1 2020-01-02T03:04:05Z chatty chatty 1 src - [chatty-%d] keeps talking\n", i); err != nil {
+							return
+						}
+						time.Sleep(2 * time.Millisecond)
+					}
+				}()
+			} else {
+				close(chattyDone)
+			}
 			hostileLines := int64(0)
 			if sc.hostile {
 				hostileLines = sendHostile(addrs[0], rand.New(rand.NewSource(rng.Int63())))
@@ -412,9 +432,23 @@ func runAgent(sc agentScript) (obs agentObs) {
 				time.Sleep(time.Duration(sc.stopMs[g]) * time.Millisecond)
 			}
 			t0 := time.Now()
-			shutdownInputs()
-			orc.Shutdown()
-			obs.stopMs = append(obs.stopMs, time.Since(t0).Milliseconds())
+			stopped := make(chan struct{})
+			go func() {
+				shutdownInputs()
+				orc.Shutdown()
+				close(stopped)
+			}()
+			select {
+			case <-stopped:
+				obs.stopMs = append(obs.stopMs, time.Since(t0).Milliseconds())
+			case <-time.After(20 * time.Second):
+				obs.stopMs = append(obs.stopMs, 999999) // never returned; the agent of this generation is abandoned
+				obs.panics = append(obs.panics, fmt.Sprintf("generation %d: the stop did not return within 20 s", g))
+			}
+			select {
+			case <-chattyDone:
+			case <-time.After(2 * time.Second):
+			}
 			// metrics of this generation
 			for name, v := range dumpGatherer(ld.GetMetricGatherer()) {
 				if strings.HasSuffix(name, "_total") && !strings.HasPrefix(name, "go_") && name != "process_cpu_seconds_total" && name != "logger_logs_total" {
@@ -601,6 +635,9 @@ func (a *agentComp) Oracle(c Case, impl []string) string {
 			continue
 		}
 		if len(obs.panics) > 0 {
+			if strings.Contains(strings.Join(obs.panics, ";"), "stop did not return") {
+				return "[key=e2e-stop-hang] " + strings.Join(obs.panics, "; ")
+			}
 			return "[key=agent-panic] " + strings.Join(obs.panics, "; ")
 		}
 		var msg string
@@ -701,8 +738,8 @@ func oracleC18(obs agentObs) string {
 			return fmt.Sprintf("[key=e2e-slow-stop] stop %d took %d ms, bound %d ms", i, ms, bound)
 		}
 	}
-	// no chunk only in memory: after a stop every record not yet acknowledged must be recoverable (decided by C01 at the end)
-	return ""
+	// no chunk only in memory: whatever was not acknowledged before a stop must have been saved and delivered by a later generation
+	return oracleC01(obs)
 }
 
 // C19: the counters balance with what the harness did and saw
@@ -795,6 +832,9 @@ func (a *agentComp) Generate(rng *rand.Rand, n int, emit func(Case)) {
 		}
 		if a.prop == "c19" && i%4 == 0 {
 			sc.earlyDrops = true
+		}
+		if a.prop == "c18" && i%2 == 0 {
+			sc.chatty = true
 		}
 		if a.prop == "c07" {
 			sc.hostile = true
